@@ -72,7 +72,7 @@ type c31Rec struct {
 	log *c31Log
 }
 
-func newC31Rec(inner storage.Storage, log *c31Log) *c31Rec {
+func c31NewRec(inner storage.Storage, log *c31Log) *c31Rec {
 	return &c31Rec{DelegatingStorage: delegator.Wrap(inner), log: log}
 }
 
@@ -281,7 +281,7 @@ type c31Authz struct {
 	resolver bool
 }
 
-var errC31Authz = errors.New("c31: authorizer program error")
+var c31ErrAuthz = errors.New("c31: authorizer program error")
 
 func c31Str(p *string) string {
 	if p == nil {
@@ -353,7 +353,7 @@ func (a *c31Authz) AuthorizeRequest(ctx context.Context, r *authorization.Reques
 	d := a.decideRequest(r)
 	a.log.add(c31Event{az: true, hook: "request", op: r.Operation, b: r.Bucket, k: r.Key, sb: r.SourceBucket, sk: r.SourceKey, dec: d})
 	if d == "e" {
-		return false, errC31Authz
+		return false, c31ErrAuthz
 	}
 	return d == "1", nil
 }
@@ -366,7 +366,7 @@ func (a *c31Authz) item(hook string, r *authorization.Request, item string, item
 	d := a.decideItem(hook, r.Operation, c31Str(r.Bucket), item, i2)
 	a.log.add(c31Event{az: true, hook: hook, op: r.Operation, b: r.Bucket, k: r.Key, sb: r.SourceBucket, sk: r.SourceKey, item: &item, item2: item2, dec: d})
 	if d == "e" {
-		return false, errC31Authz
+		return false, c31ErrAuthz
 	}
 	return d == "1", nil
 }
